@@ -285,3 +285,14 @@ PLANS["C22"] = {
             "(b) random sequences of 20-50 operations over 7 atoms; verdicts judged by the kernel (model evaluation / FM+CC refutation) "
             "and by a memo keyed by the literal set; non-trivial = the sequence contains a check",
 }
+
+PLANS["C15"] = {
+    "module": "Rat_Trace", "pre": lambda: driver_build(),
+    "jobs": lambda seed, tier: spread(seed, "C15", N(tier, 60, 1200), ["-"], "rat", size=N(tier, 70, 90)),
+    "per_batch": 6,
+    "rule": "operation sequences on FastRational over a pool of word-boundary values (0, +-1, 2^31-1, +-2^31, 2^32+-1, 2^53, 2^63, 2^64, "
+            "fractions with such numerators/denominators), operands taken from literals and from earlier results; every result is "
+            "checked by TLC with BigInt arithmetic (cross-multiplication, Bezout / quotient certificates); non-trivial = the sequence "
+            "produced at least one arbitrary-precision value",
+    "assumptions": ["decimal strings printed by get_str are converted to limb sequences by the harness (base conversion is trusted)"],
+}
